@@ -11,7 +11,9 @@ HOSTILE = ["plain", "-x", "--flag", "--env", "--rm", "--", "-", "with space", "a
            "--name=evil", "--entrypoint", "x y z", "\ttab", "new\nline", "--publish=1:1"]
 KEYS = ["A", "PATH", "lower", "with space", "-dash", "--double", "k.ey", "café", "K_1", "0"]
 BUILDPACKS = ["./fixtures/app", "../crate/fixtures", "./does/not/exist", "fixtures/app", ".", "heroku/nodejs", "heroku/procfile@1.2.3", "urn:cnb:registry:x/y", "/abs/path/bp", "rel/bp.cnb", "-weird", "--also", "docker://img/bp:1", "with space/bp", "a=b", "dup/bp", "dup/bp"]
-FIXTURE = {"elsewhere/app/index.txt": "the app beside the link target", "elsewhere/app/keep": "e", "elsewhere/deep/marker": "m", "fixtures/app/index.txt": "hello", "fixtures/app/sub/file": "x", "fixtures/app/keep": "k", "fixtures/other app/f": "other", "Cargo.toml": "[package]\nname = \"fixturecrate\"\nversion = \"0.0.0\"\n"}
+DEEP = "/".join("d%d" % i for i in range(20))
+FIXTURE = {"fixtures/app/%s/leaf20.txt" % DEEP: "twenty levels down", "../crate2/fixtures/app/index.txt": "the other crate's app", "../crate2/fixtures/app/only-in-crate2": "2",
+           "elsewhere/app/index.txt": "the app beside the link target", "elsewhere/app/keep": "e", "elsewhere/deep/marker": "m", "fixtures/app/index.txt": "hello", "fixtures/app/sub/file": "x", "fixtures/app/keep": "k", "fixtures/other app/f": "other", "Cargo.toml": "[package]\nname = \"fixturecrate\"\nversion = \"0.0.0\"\n"}
 OWN = re.compile(r"^libcnbtest_[a-z]{12}$")
 
 
@@ -60,6 +62,9 @@ def gen_case(r, idx, env):
         c["rebuild_cfg"] = {"builder": r.choice(["heroku/builder:24", "other/builder:22", "--builder"]), "app_dir": r.choice(["fixtures/app", "fixtures/other app"]),
                             "buildpacks": [r.choice(BUILDPACKS) for _ in range(r.choice([0, 1, 3]))], "env": [[k, v] for k, v in benv2.items()],
                             "preprocessor": None if r.random() < 0.5 else {"add": [["re.txt", "rebuilt"]], "remove": [], "append": []}, "expected": "success"}
+    # a later, independent build in the same process that belongs to another crate (CARGO_MANIFEST_DIR differs): relative app
+    # paths are resolved against the crate of the build at hand
+    c["second_crate_build"] = r.random() < 0.25
     c["shell"] = r.choice(HOSTILE)
     c["exec"] = r.choice(HOSTILE)
     return c
@@ -102,6 +107,10 @@ def run_case(env, c, sh):
                                                             {"op": "start_container", "config": c["container"], "body": [{"op": "shell_exec", "command": c["exec"]}] +
                                                              ([{"op": "address_for_port", "port": c["container"]["ports"][0]}] if c["container"]["ports"] else [])}] +
                             ([{"op": "rebuild", "reuse_config": not c.get("rebuild_cfg"), "config": c.get("rebuild_cfg") or c["build"], "body": []}] if c.get("rebuild") else [])}]}
+    crate2 = os.path.join(env.root, "crate2")
+    if c.get("second_crate_build"):
+        scenario["builds"].append({"config": {"builder": "b2/builder", "app_dir": "fixtures/app", "buildpacks": ["second/bp"], "env": [], "preprocessor": None, "expected": "success"},
+                                   "manifest_dir": crate2, "body": []})
     app_abs = os.path.realpath(c["build"]["app_dir"] if os.path.isabs(c["build"]["app_dir"]) else os.path.join(env.crate, c["build"]["app_dir"]))
     before = fixture_digest(app_abs)
     case = {"idx": c["idx"], "case": c}
@@ -130,6 +139,15 @@ def run_case(env, c, sh):
         sh.violation("ambiguous-argv", "%s: a command line does not parse under the CLI's own grammar: %s; commands %r" % (what, e, [x["argv"] for x in log]), case)
         return
     builds = [x for x in cmds if x["kind"] == "pack build"]
+    if c.get("second_crate_build"):
+        if not builds or len(builds) < 2:
+            sh.violation("pack-build-count", "%s: %d pack build invocations although a second build was run" % (what, len(builds)), case)
+            return
+        last = builds.pop()
+        want_dir = os.path.realpath(os.path.join(crate2, "fixtures", "app"))
+        if last["builder"] != "b2/builder" or last["buildpacks"] != ["second/bp"] or os.path.realpath(last["path"] or "") != want_dir or log[last["seq"]]["path_digest"] != fixture_digest(want_dir):
+            sh.violation("second-crate:path", "%s: the build of the second crate (CARGO_MANIFEST_DIR=%s, app_dir 'fixtures/app') ran pack with --path %r (builder %r)" % (what, crate2, last["path"], last["builder"]), case)
+            return
     if len(builds) != (2 if c.get("rebuild") else 1):
         sh.violation("pack-build-count", "%s: %d pack build invocations" % (what, len(builds)), case)
         return
